@@ -1441,6 +1441,7 @@ def run_history(ctx, mode, start, length, allow_hostile):
     while step < length:
         composite = world.hub is not None and rng.random() < 0.14
         before = {m.name: Snap(m) for m in world.models}
+        pre_entangled = {m.name: m.entangled for m in world.models}
         done = []          # (op, outcome, ret, exc, snapshot of op's dataset before the call)
         problems = 0
         reacted = []
@@ -1498,7 +1499,8 @@ def run_history(ctx, mode, start, length, allow_hostile):
         if composite and any(x[0].variant == "onto_existing" for x in done):
             # the slot semantics of re-identifying onto an identifier added in the same block are not defined
             ctx.count("ledger_skipped_block_with_update_id_onto_existing")
-        elif world.rec is not None and not problems and any(x[0].m.entangled for x in done):
+        elif world.rec is not None and not problems and (any(pre_entangled[x[0].m.name] for x in done) or
+                                                         (composite and any(x[0].m.entangled for x in done))):
             ctx.count("ledger_skipped_entangled_dataset")
         elif world.rec is not None and not problems:
             expect = {}
